@@ -51,6 +51,68 @@ def json_text(n):
     return ' ; '.join(out)
 
 
+def _ret_of(block):
+    """The returned expression when `block` is `return E;` / `{ return E; }`, else None."""
+    b = block
+    if b.get('kind') == 'CompoundStmt':
+        inner = [x for x in b.get('inner', []) if x.get('kind') != 'NullStmt']
+        if len(inner) != 1:
+            return None
+        b = inner[0]
+    if b.get('kind') == 'ReturnStmt' and b.get('inner'):
+        return b['inner'][0]
+    return None
+
+
+def _fold_returns(stmts):
+    """A predicate written with early returns (`if(c) return 1; if(d) return E; return 0;`) as one boolean
+    expression (`c || (d && E)`); None when the body has any other shape."""
+    def const(e):
+        t = unparen(S(e)).strip()
+        return t if t in ('0', '1') else None
+
+    def par(e):
+        return dict(kind='ParenExpr', inner=[e])
+
+    def binop(op, a, b):
+        return dict(kind='BinaryOperator', opcode=op, inner=[par(a), par(b)])
+
+    def neg(e):
+        return dict(kind='UnaryOperator', opcode='!', inner=[par(e)])
+
+    def ite(c, e, f):
+        if const(e) == '1':
+            return binop('||', c, f) if const(f) != '0' else c
+        if const(e) == '0':
+            return binop('&&', neg(c), f)
+        if const(f) == '0':
+            return binop('&&', c, e)
+        if const(f) == '1':
+            return binop('||', neg(c), e)
+        return None
+
+    s0 = stmts[0]
+    r = _ret_of(s0)
+    if r is not None:
+        return r
+    if s0.get('kind') == 'IfStmt':
+        inner = s0['inner']
+        cond, then = inner[0], inner[1]
+        e = _ret_of(then)
+        if e is None:
+            return None
+        if len(inner) > 2:
+            f = _ret_of(inner[2])
+            if f is None:
+                f = _fold_returns([inner[2]]) if inner[2].get('kind') == 'IfStmt' else None
+        else:
+            f = _fold_returns(stmts[1:]) if len(stmts) > 1 else None
+        if f is None:
+            return None
+        return ite(cond, e, f)
+    return None
+
+
 def resolve_cond(C, f, cond, depth=2):
     """Inline a trivial predicate helper call, or rebuild the condition from a flag variable
     (int a = A; if(!a && G) a = B;  ==>  A || (G && B))."""
@@ -61,6 +123,10 @@ def resolve_cond(C, f, cond, depth=2):
         g = C.funcs.get(S(c['inner'][0]))
         if g is not None:
             stmts = [x for x in g.body.get('inner', []) if x.get('kind') != 'NullStmt']
+            if len(stmts) > 1:
+                folded = _fold_returns(stmts)
+                if folded is not None:
+                    stmts = [dict(kind='ReturnStmt', inner=[folded])]
             if len(stmts) == 1 and stmts[0].get('kind') == 'ReturnStmt' and stmts[0].get('inner'):
                 amap = dict(zip([p for p, t in g.params], c['inner'][1:]))
 
